@@ -800,7 +800,7 @@ func (c *Ctx) isStrideLoop(fi *FuncInfo, l *Loop) bool {
 				} else {
 					goal = delta.addc(1) // delta ≤ -1
 				}
-				if !fi.proveAt(goal, p, fi.loopLemmas()) {
+				if !fi.proveAt(goal, p, nil) {
 					good = false
 				}
 			}
